@@ -1239,6 +1239,8 @@ pub fn exec_case(case: &Value, want: &BTreeSet<String>) -> Value {
     };
     let hash_key = case["hash_key"].as_u64().unwrap_or(0);
     let workers = case["workers"].as_u64().unwrap_or(1) as usize;
+    // (see sim_a.rs: a run with process history stays on one pool thread)
+    let workers = if case.get("prelude").map(|p| p.is_object()).unwrap_or(false) { 1 } else { workers };
     let case2 = case.clone();
     let want2 = want.clone();
     let r = run_isolated(hash_key, workers, move || run_inner(&case2, inst, &want2));
